@@ -3,7 +3,9 @@
 seeded/<id>/meta.json, and print the markdown table of all seeds (for DESIGN.md I.6)."""
 import json, os, re, sys
 root = '/verif/seeded'
-desc = json.load(open('/verif/notes/seed_desc_round2.json'))
+desc = json.load(open("/verif/notes/seed_desc_round2.json"))
+if os.path.exists("/verif/notes/seed_desc_round3.json"):
+    desc.update(json.load(open("/verif/notes/seed_desc_round3.json")))
 hist = {}
 hp = '/verif/notes/seed_history.json'
 if os.path.exists(hp):
